@@ -242,6 +242,7 @@ impl<A: StateApi> StateInner<A> {
         for (i, s) in self.slots.v.iter().enumerate() {
             if s.pending() {
                 let due = latest > s.arg as usize || self.closed;
+                ctx.check("C11", "every-pending-future-woken-after-close", self.closed, s.woken(), || format!("slot {} is pending after close and was not woken", i));
                 ctx.check("C13", "pending-receiver-woken-by-send-or-close", due, s.woken(), || {
                     format!("slot {} waits for something newer than rank {}, latest rank {}, closed {}: not woken through its latest waker", i, s.arg, latest, self.closed)
                 });
